@@ -41,6 +41,9 @@ SIMPLE = [
     ("abs", "(math.abs §)"), ("pipe-abs", "(§ | math.abs)"), ("round", "(math.round 1 §)"), ("pow", "(math.pow § 2)"),
     ("lag", "(lag 1 §)"), ("as", "(§ | as int)"), ("in", "(§ | in 1..3)"), ("range-lo", "(¤ | in §..3)"), ("range-hi", "(¤ | in 1..§)"),
     ("pipe-user", "(§ | zf9)"), ("user-piped-named", "(§ | zg9 n:1)"),
+    # a reference that FOLLOWS a range / tuple argument in the same expression (the range desugars to {start = .., end = ..}; the field
+    # names of such a tuple are not columns of the frame)
+    ("after-range", "((¤ | in 1..3) && (§ > 1))"), ("after-range-or", "((¤ | in 2..¤) || (§ == null))"),
 ]
 STATIC = [
     # statically dead case branches
@@ -82,7 +85,7 @@ STATIC = [
 ]
 LEAVES2 = [("fstr", 'f"{§}x"'), ("add", "(§ + 1)"), ("abs", "(math.abs §)"), ("coalesce", "(§ ?? 1)"), ("case-true", "(case [true => §])"),
            ("named-only", "(1 | zg9 n:§)")]
-OUTSIDE_MODEL = [("this-prefix", "this.§"), ("call-head", "(§ 1)"), ("call-head-piped", "(¤ | §)")]     # the last two have no well-scoped twin
+OUTSIDE_MODEL = [("after-tuple-arg", "((zign9 {zq8 = ¤, zq7 = 1}) + §)"), ("this-prefix", "this.§"), ("call-head", "(§ 1)"), ("call-head-piped", "(¤ | §)")]     # the last two have no well-scoped twin
 NO_TWIN = ("call-head", "call-head-piped")
 CONTEXTS = [(l, t, False) for l, t in SIMPLE] + [(l, t, True) for l, t in STATIC] + [(l, t, False) for l, t in OUTSIDE_MODEL]
 MODEL_CONTEXTS = [(l, t, False) for l, t in SIMPLE] + [(l, t, True) for l, t in STATIC]
@@ -141,20 +144,20 @@ POS_QUICK2 = ("derive", "filter", "group-derive", "named-only-arg", "unused-let"
 # ------------------------------------------------------------------------------------------------------------------------------
 BASES = [
     dict(label="declared-select", declared=True, lets=[], lines=["from t0", "select {u0, k}"], g="u0", g2="k",
-         refs=[("unknown", "zz9", "unknown"), ("dropped", "a0", "unknown"), ("unknown-qualified", "t0.zz9", "unknown"),
+         refs=[("unknown", "zz9", "unknown"), ("range-field", "start", "unknown"), ("range-field-end", "end", "unknown"), ("tuple-alias", "zq8", "unknown"), ("dropped", "a0", "unknown"), ("unknown-qualified", "t0.zz9", "unknown"),
                ("dropped-qualified", "t0.a0", "unknown"), ("unknown-relation", "zrel.u0", "unknown")]),
     dict(label="declared-select-empty", declared=True, lets=[], lines=["from t0", "select {u0, k}", "filter false"], g="u0", g2="k",
          refs=[("unknown", "zz9", "unknown"), ("dropped", "a0", "unknown")]),
     dict(label="undeclared-select", declared=False, lets=[], lines=["from t0", "select {u0, k}"], g="u0", g2="k",
-         refs=[("unknown", "zz9", "unknown"), ("dropped", "a0", "unknown"), ("dropped-qualified", "t0.a0", "unknown")]),
+         refs=[("unknown", "zz9", "unknown"), ("range-field", "start", "unknown"), ("range-field-end", "end", "unknown"), ("tuple-alias", "zq8", "unknown"), ("dropped", "a0", "unknown"), ("dropped-qualified", "t0.a0", "unknown")]),
     dict(label="declared-group-aggregate", declared=True, lets=[], lines=["from t0", "group k (aggregate {u0 = sum a0})"], g="u0", g2="k",
-         refs=[("unknown", "zz9", "unknown"), ("dropped", "a0", "unknown")]),
+         refs=[("unknown", "zz9", "unknown"), ("range-field", "start", "unknown"), ("range-field-end", "end", "unknown"), ("tuple-alias", "zq8", "unknown"), ("dropped", "a0", "unknown")]),
     dict(label="undeclared-aggregate", declared=False, lets=[], lines=["from t0", "aggregate {u0 = sum a0, k = max k}"], g="u0", g2="k",
          refs=[("unknown", "zz9", "unknown"), ("dropped", "a0", "unknown")]),
     dict(label="declared-join", declared=True, lets=[], lines=["from t0", "join t1 (==k)"], g="u0", g2="a1", gk="a0",
          refs=[("unknown", "zz9", "unknown"), ("ambiguous", "k", "ambiguous")]),
     dict(label="declared-let", declared=True, lets=[("l0", "from t0 | select {u0, k}")], lines=["from l0"], g="u0", g2="k",
-         refs=[("unknown", "zz9", "unknown"), ("dropped", "a0", "unknown"), ("dropped-qualified", "l0.a0", "unknown")]),
+         refs=[("unknown", "zz9", "unknown"), ("range-field", "start", "unknown"), ("range-field-end", "end", "unknown"), ("tuple-alias", "zq8", "unknown"), ("dropped", "a0", "unknown"), ("dropped-qualified", "l0.a0", "unknown")]),
     dict(label="undeclared-let-derive", declared=False, lets=[("l0", "from t0 | select {u0, k}")], lines=["from l0", "derive {w = u0 + 1}"],
          g="w", g2="k", refs=[("unknown", "zz9", "unknown"), ("dropped", "a0", "unknown")]),
 ]
